@@ -95,6 +95,13 @@ def gen_ops(chk):
         for w in "01":
             ops.append("topdom %s %s" % (w, hx(dom)))
             ops.append("topdom %s %s" % (w, hx(b"*." + dom[2:])))
+    # every single-byte substitution (1..255) at every position of template domains: only letters, digits, '-' and '.' may be accepted
+    for dom in (b"t-1.example.com", b"a.b", b"*.t1.Example.org", b"x-y.zz", b"0.a.b"):
+        for pos in range(len(dom)):
+            for c in range(1, 256):
+                v = bytearray(dom); v[pos] = c
+                for w in "01":
+                    ops.append("topdom %s %s" % (w, hx(bytes(v))))
     for _ in range(4000 if thorough else 800):
         n = rng.choice([3, 4, 5, 10, 30, 64, 100, 128, 129, rng.randrange(1, 140)])
         s = bytes(rng.choice(b"abcXYZ019-..__*\x80\xff @[`{") for _ in range(n))
@@ -152,6 +159,14 @@ RULE = ("topdom: every string of length <= 6 (thorough 7) over {a,A,b,-,.,*,0} i
 def run(chk):
     ops = gen_ops(chk)
     vlib.pure_check(chk, ops, oracle, RULE, "Common.checkTopdomain/queryDatalen vs common.c")
+    # the call sites: what tunnel_dns() does with the split (tunnel request / NS and A responses built from the matched domain / forwarding), for
+    # plain and wildcard-served domains with wildcard labels of several lengths, in the real loop against the byte-level server model
+    import srvcheck
+    n = 12 if chk.tier == "thorough" else 4
+    ev = chk.cov.get("evaluations", 0)
+    srvcheck.model_only(chk, "C17", runs=n, nsteps=250, gen_kw={"wild": True, "other": 3.0, "bind": 5353}, seed_mul=49979687)
+    srvcheck.model_only(chk, "C17", runs=n, nsteps=250, gen_kw={"wild": False, "other": 3.0}, seed_mul=67867967)
+    chk.cov["rule"] += "; call sites: generated server sessions with plain and wildcard-served domains (NS/A/outside queries boosted) vs the byte-level server model"
 
 
 def replay(chk, path):
